@@ -492,6 +492,13 @@ func (s *Store) GC(ctx context.Context) error {
 	if err != nil {
 		return fmt.Errorf("unable to reload index: %w", err)
 	}
+	if s.AutoSaveIndex {
+		// persist the cleaned index before removing blobs, so that
+		// index.json never lists a manifest whose blob is gone
+		if err := s.saveIndex(); err != nil {
+			return err
+		}
+	}
 	reachableNodes := s.graph.DigestSet()
 
 	// clean up garbage blobs in the storage
